@@ -6,7 +6,7 @@ VERIF = os.path.dirname(os.path.dirname(os.path.abspath(__file__)))
 REPO = os.environ.get("VERIF_REPO", "/repo")
 SPEC = os.path.join(VERIF, "spec")
 HARNESS = os.path.join(VERIF, "harness")
-EVID = os.path.join(VERIF, "evidence")
+EVID = os.environ.get("VERIF_EVID") or os.path.join(VERIF, "evidence")   # (VERIF_EVID: regression runs against seeded changes)
 REPLAYS = os.path.join(EVID, "replays")
 GO = os.environ.get("VERIF_GO", "go1.26.8")
 NCPU = os.cpu_count() or 4
